@@ -203,6 +203,8 @@ Enabled(ty, regs, ev) ==
                 GFold(ty, "product", [i \in 1..Len(ev.rs) |-> regs[ev.rs[i]]], B!OneB(ty))
           [] ev.op = "from_f" -> QIsDyadic(ev.s)
           [] ev.op \in {"zero", "one"} -> TRUE
+          \* comparisons cross-multiply: keep them inside TLC's integers
+          [] ev.op \in Cmps -> ExactOK(2, 0, {a.re, b.re})
           [] IsObs(ev.op) -> TRUE      \* (the sign predicates are handled above)
 
 \* canonical event record (unused fields carry fixed dummies so that all events
